@@ -28,6 +28,8 @@ type Analyzer struct {
 	shortIndex  map[string][]*ssa.Function
 	readsCache  map[*ssa.Function]map[string]bool
 	atomReadsMemo map[string]map[string]bool
+	quorumReach map[*ssa.Function]int
+	globalTables map[*ssa.Global]*Term
 	anchors     *K
 	valsum     map[*ssa.Function]*Term
 	valsumBusy map[*ssa.Function]bool
@@ -1111,6 +1113,9 @@ func (c *FCtx) load(addr ssa.Value, at *ssa.UnOp) *Term {
 	case *ssa.FieldAddr, *ssa.IndexAddr:
 		return c.Term(a)
 	case *ssa.Global:
+		if t := c.A.globalTable(a); t != nil {
+			return t
+		}
 		return c.Term(a)
 	case *ssa.Alloc:
 		if at != nil {
@@ -1931,4 +1936,100 @@ func (c *FCtx) structFilledAt(a *ssa.Alloc, at ssa.Instruction) *Term {
 		}
 	}
 	return Struct(typeShort(elem), names, vals)
+}
+
+// globalTable: a package-level slice variable that is initialised once, in the package initialiser, with a literal of
+// function values (a table of checks / decoders run in a loop) and never written again is that literal: array(func...).
+func (a *Analyzer) globalTable(g *ssa.Global) *Term {
+	if a.globalTables == nil {
+		a.globalTables = map[*ssa.Global]*Term{}
+	}
+	if t, ok := a.globalTables[g]; ok {
+		return t
+	}
+	a.globalTables[g] = nil
+	pt, ok := g.Type().(*types.Pointer)
+	if !ok {
+		return nil
+	}
+	if _, isSlice := pt.Elem().Underlying().(*types.Slice); !isSlice {
+		return nil
+	}
+	// every store to the global in library code
+	var stores []*ssa.Store
+	check := func(f *ssa.Function) {
+		for _, b := range f.Blocks {
+			for _, in := range b.Instrs {
+				if st, ok := in.(*ssa.Store); ok && st.Addr == ssa.Value(g) {
+					stores = append(stores, st)
+				}
+			}
+		}
+	}
+	for _, f := range a.P.Funcs {
+		check(f)
+	}
+	if g.Pkg != nil {
+		if init := g.Pkg.Func("init"); init != nil {
+			check(init)
+		}
+	}
+	if len(stores) != 1 || stores[0].Parent().Name() != "init" {
+		return nil
+	}
+	sl, ok := stores[0].Val.(*ssa.Slice)
+	if !ok {
+		return nil
+	}
+	al, ok := sl.X.(*ssa.Alloc)
+	if !ok {
+		return nil
+	}
+	at, ok := al.Type().(*types.Pointer).Elem().Underlying().(*types.Array)
+	if !ok || at.Len() > 32 {
+		return nil
+	}
+	elems := make([]*Term, at.Len())
+	for _, r := range *al.Referrers() {
+		ia, ok := r.(*ssa.IndexAddr)
+		if !ok {
+			continue
+		}
+		k, isConst := ia.Index.(*ssa.Const)
+		if !isConst {
+			return nil
+		}
+		for _, r2 := range *ia.Referrers() {
+			st, ok := r2.(*ssa.Store)
+			if !ok || st.Addr != ssa.Value(ia) {
+				continue
+			}
+			var ft *Term
+			switch v := st.Val.(type) {
+			case *ssa.Function:
+				ft = T("func", funcID(v))
+			case *ssa.MakeClosure:
+				if fn, isFn := v.Fn.(*ssa.Function); isFn && len(v.Bindings) == 0 {
+					ft = T("func", funcID(fn))
+				}
+			case *ssa.ChangeType:
+				if fn, isFn := v.X.(*ssa.Function); isFn {
+					ft = T("func", funcID(fn))
+				}
+			}
+			i := int(k.Int64())
+			if ft == nil || i >= len(elems) || elems[i] != nil {
+				return nil
+			}
+			elems[i] = ft
+		}
+	}
+	for _, e := range elems {
+		if e == nil {
+			return nil
+		}
+	}
+	t := T("array", "", elems...)
+	a.globalTables[g] = t
+	return t
 }
